@@ -128,3 +128,21 @@ func VerifNewAckHandlerWithTimeout(f any, timeout time.Duration, timeoutFunc fun
 }
 
 func (v *VerifAckHandler) Call(args ...reflect.Value) error { return v.h.call(args...) }
+
+// ---- public handler API glue
+
+// VerifManagerFireOpen invokes the manager's open handlers the way a successful open does.
+func VerifManagerFireOpen(m *Manager) {
+	m.openHandlers.forEach(func(handler *ManagerOpenFunc) { (*handler)() }, false)
+}
+
+// VerifClientSocketEventHandlers returns (and consumes, for once handlers) the handlers an
+// occurrence of the event would invoke on a client socket.
+func VerifClientSocketEventHandlers(s ClientSocket, event string) []reflect.Value {
+	hs := s.(*clientSocket).eventHandlers.getAll(event)
+	out := make([]reflect.Value, len(hs))
+	for i, h := range hs {
+		out[i] = h.rv
+	}
+	return out
+}
